@@ -208,11 +208,39 @@ func (v *VerifSM) MaxStreams(uni bool, n int64) {
 	v.m.HandleMaxStreamsFrame(&wire.MaxStreamsFrame{Type: t, MaxStreamNum: protocol.StreamNum(n)})
 }
 
-func (v *VerifSM) TransportParams(nb, nu int64) {
+func (v *VerifSM) TransportParams(nb, nu int64, resetStreamAt bool) {
 	v.m.HandleTransportParameters(&wire.TransportParameters{
 		MaxBidiStreamNum: protocol.StreamNum(nb), MaxUniStreamNum: protocol.StreamNum(nu),
 		InitialMaxStreamDataBidiRemote: 1 << 16, InitialMaxStreamDataUni: 1 << 16,
+		EnableResetStreamAt: resetStreamAt,
 	})
+}
+
+// ResetStreamAtSnapshot: the map's supportsResetStreamAt (given to new streams) and the IDs of
+// the open outgoing streams whose send side has the extension switched on, ascending.
+func (v *VerifSM) ResetStreamAtSnapshot() (bool, []int64) {
+	var ids []int64
+	ob, ou := v.m.outgoingBidiStreams, v.m.outgoingUniStreams
+	ob.mutex.RLock()
+	for id, str := range ob.streams {
+		str.sendStr.mutex.Lock()
+		if str.sendStr.supportsResetStreamAt {
+			ids = append(ids, int64(id))
+		}
+		str.sendStr.mutex.Unlock()
+	}
+	ob.mutex.RUnlock()
+	ou.mutex.RLock()
+	for id, str := range ou.streams {
+		str.mutex.Lock()
+		if str.supportsResetStreamAt {
+			ids = append(ids, int64(id))
+		}
+		str.mutex.Unlock()
+	}
+	ou.mutex.RUnlock()
+	sort.Slice(ids, func(i, j int) bool { return ids[i] < ids[j] })
+	return v.m.supportsResetStreamAt, ids
 }
 
 // Recv / Send are the dispatch functions every receive-side / send-side frame handler
